@@ -127,9 +127,72 @@ func c17EncSpecs(withBigRSA int) []c17Spec {
 
 // c17Ring is a key under test: storage + lock manager + reference knowledge
 // about the key material of each version (captured when the version was made).
+// c17FaultStore is a logical.Storage that fails one chosen operation once.
+// It wraps the in-memory storage as a plain (non-transactional) Storage.
+type c17FaultStore struct {
+	logical.Storage
+	armed   bool
+	failAt  int
+	n       int
+	fired   bool
+	firedOp string
+}
+
+var errC17Injected = fmt.Errorf("verif: injected storage fault")
+
+func (f *c17FaultStore) hit(op, key string) error {
+	if !f.armed {
+		return nil
+	}
+	i := f.n
+	f.n++
+	if i == f.failAt && !f.fired {
+		f.fired = true
+		pfx := key
+		if j := strings.IndexByte(key, '/'); j >= 0 {
+			pfx = key[:j]
+		}
+		f.firedOp = op + "_" + pfx
+		return errC17Injected
+	}
+	return nil
+}
+
+func (f *c17FaultStore) arm(k int) {
+	f.armed, f.failAt, f.n, f.fired, f.firedOp = k >= 0, k, 0, false, ""
+}
+
+func (f *c17FaultStore) disarm() (bool, string) {
+	f.armed = false
+	return f.fired, f.firedOp
+}
+
+func (f *c17FaultStore) Get(ctx context.Context, key string) (*logical.StorageEntry, error) {
+	if err := f.hit("get", key); err != nil {
+		return nil, err
+	}
+	return f.Storage.Get(ctx, key)
+}
+
+func (f *c17FaultStore) Put(ctx context.Context, e *logical.StorageEntry) error {
+	if err := f.hit("put", e.Key); err != nil {
+		return err
+	}
+	return f.Storage.Put(ctx, e)
+}
+
+func (f *c17FaultStore) Delete(ctx context.Context, key string) error {
+	if err := f.hit("delete", key); err != nil {
+		return err
+	}
+	return f.Storage.Delete(ctx, key)
+}
+
 type c17Ring struct {
 	ctx     context.Context
-	st      *logical.InmemStorage
+	raw     *logical.InmemStorage // harness view
+	st      logical.Storage       // what the code under test gets (raw or the fault store)
+	fs      *c17FaultStore
 	lm      *LockManager
 	noCache bool
 	name    string
@@ -137,7 +200,16 @@ type c17Ring struct {
 }
 
 func c17NewRing(ctx context.Context, name string, s c17Spec, noCache bool) (*c17Ring, error) {
-	k := &c17Ring{ctx: ctx, st: &logical.InmemStorage{}, name: name, spec: s, noCache: noCache}
+	return c17NewRingF(ctx, name, s, noCache, false)
+}
+
+func c17NewRingF(ctx context.Context, name string, s c17Spec, noCache, faults bool) (*c17Ring, error) {
+	k := &c17Ring{ctx: ctx, raw: &logical.InmemStorage{}, name: name, spec: s, noCache: noCache}
+	k.st = k.raw
+	if faults {
+		k.fs = &c17FaultStore{Storage: k.raw}
+		k.st = k.fs
+	}
 	k.lm, _ = NewLockManager(!noCache, 0)
 	if s.Derived && s.KDF == Kdf_hmac_sha256_counter {
 		// legacy KDF: the lock manager only creates hkdf policies, so build
@@ -874,6 +946,13 @@ type c17Hist struct {
 	steps  []string
 	bad    bool
 	saw    map[string]bool
+
+	backups      []c17BackupP
+	forceLatest  bool
+	limbo        int    // a trim to this version failed half-way and was not retried yet
+	trimFault    string // storage op whose failure made an earlier (retried) trim fail
+	onFaultFail  func(what string)
+	onFaultRetry func()
 }
 
 func (h *c17Hist) log(format string, a ...any) {
@@ -987,10 +1066,10 @@ func (h *c17Hist) checkLedger(p *Policy) {
 // of this key holds material of trimmed versions.
 func (h *c17Hist) checkStorage() {
 	var arch, pol []byte
-	if e, _ := h.k.st.Get(h.k.ctx, "archive/"+h.k.name); e != nil {
+	if e, _ := h.k.raw.Get(h.k.ctx, "archive/"+h.k.name); e != nil {
 		arch = e.Value
 	}
-	if e, _ := h.k.st.Get(h.k.ctx, "policy/"+h.k.name); e != nil {
+	if e, _ := h.k.raw.Get(h.k.ctx, "policy/"+h.k.name); e != nil {
 		pol = e.Value
 	}
 	lo := h.m.MinAvail
@@ -1001,8 +1080,15 @@ func (h *c17Hist) checkStorage() {
 		inArch := bytes.Contains(arch, []byte(km.Needle))
 		inPol := bytes.Contains(pol, []byte(km.Needle))
 		switch {
+		case v >= lo && v < h.limbo:
+			h.r.Count("storage_limbo_after_failed_trim", 1)
 		case v >= lo && v <= h.m.Latest:
-			if !inArch {
+			if !inArch && h.trimFault == "put_policy" && h.k.noCache {
+				// precise signature: cache-less, an earlier trim failed on the policy write after its archive write and was retried
+				h.violate("C17-trim-retry-after-policy-write-fault", fmt.Sprintf("a trim failed on the policy write after the trimmed archive had been written; the retried trim (policy reloaded from storage) trimmed the archive a second time: key material of version %d, between the minimum available version and the latest, is gone from the archive", v))
+			} else if !inArch && h.trimFault == "put_archive" && !h.k.noCache {
+				h.violate("C17-trim-retry-after-archive-write-fault", fmt.Sprintf("a trim failed because the archive write failed, the retried trim succeeded without re-basing the archive (in-memory ArchiveMinVersion is not rolled back when Persist fails), so later archive writes land on the wrong index: key material of version %d, between the minimum available version and the latest, is not in the archive", v))
+			} else if !inArch {
 				h.violate("C17-archive-missing-version", fmt.Sprintf("stored archive does not contain the key material of version %d, which is between the minimum available version and the latest", v))
 			} else {
 				h.r.Count("archive_has_version", 1)
@@ -1011,7 +1097,10 @@ func (h *c17Hist) checkStorage() {
 				h.violate("C17-archive-missing-version", fmt.Sprintf("stored policy does not contain the key material of usable version %d", v))
 			}
 		case v < lo:
-			if inArch || inPol {
+			if (inArch || inPol) && h.trimFault == "put_archive" && !h.k.noCache {
+				// precise signature: cached policy, an earlier trim failed on the archive write and was retried
+				h.violate("C17-trim-retry-after-archive-write-fault", fmt.Sprintf("a trim failed because the archive write failed, the retried trim succeeded, but the archive was never trimmed: key material of trimmed version %d is still in storage and the archive is indexed from the wrong base (in-memory ArchiveMinVersion is not rolled back when Persist fails)", v))
+			} else if inArch || inPol {
 				h.violate("C17-trim-residue", fmt.Sprintf("key material of trimmed version %d is still in storage (archive=%v policy=%v)", v, inArch, inPol))
 			} else {
 				h.r.Count("trimmed_version_gone", 1)
@@ -1027,6 +1116,9 @@ func (h *c17Hist) checkFields(p *Policy) {
 }
 
 func (h *c17Hist) pickVersion() int {
+	if h.forceLatest {
+		return 0
+	}
 	switch h.rng.Intn(10) {
 	case 0:
 		return -1
@@ -1262,9 +1354,30 @@ var c17HistSpecs = []c17Spec{
 func TestVerif_C17_History(t *testing.T) {
 	seed := kit.Seed(17)
 	shard := c17Shard()
-	r := kit.NewResult(t, "c17-policy-history", seed, "case = one seeded history of 30 operations on one keysutil policy (rotate, raise/lower min_decryption_version, set min_encryption_version, trim via min_available_version, backup, forced restore of an earlier backup, cache drop/reload, encrypt, sign, invalid settings that Persist must reject) with cached and cache-less lock managers; after every operation every remembered ciphertext/signature (newest per version + sample) is replayed: it must decrypt/verify to the original iff min_dec <= version <= latest and that version still holds the key that produced it, encrypt/sign must refuse versions below min_encryption_version, labels must equal the version used, the stored archive must contain the private material of every version in [min_available, latest] and storage must hold none of trimmed versions; a history is non-trivial when its operation sequence is distinct")
+	r := kit.NewResult(t, "c17-policy-history", seed, "case = one seeded history of 30 operations on one keysutil policy (rotate, raise/lower min_decryption_version, set min_encryption_version, trim via min_available_version, backup, forced restore of an earlier backup, cache drop/reload, encrypt, sign, invalid settings that Persist must reject) with cached and cache-less lock managers; in two thirds of the histories the storage is a wrapper that makes one PRNG-chosen storage operation (#0..6) of a rotate/config/trim/backup/restore fail once, the caller rolls its field change back as the transit handlers do and retries; plus fixed scenarios in which EVERY storage-operation index of rotate / raise min_dec / lower min_dec / trim / restore / backup is failed in turn and the ring is then rotated, used, raised to latest and lowered again. After every operation (including a failed one) every remembered ciphertext/signature (newest per version + sample) is replayed: it must decrypt/verify to the original iff min_dec <= version <= latest and that version still holds the key that produced it, encrypt/sign must refuse versions below min_encryption_version, labels must equal the version used, the stored archive must contain the private material of every version in [min_available, latest] and storage must hold none of trimmed versions; a history is non-trivial when its operation sequence is distinct")
 	defer r.Write(t)
 	ctx := context.Background()
+	scenSpecs := []c17Spec{{Type: KeyType_AES256_GCM96}, {Type: KeyType_ChaCha20_Poly1305, Derived: true, KDF: Kdf_hkdf_sha256}, {Type: KeyType_AES128_GCM96, Derived: true, Convergent: true, KDF: Kdf_hkdf_sha256}, {Type: KeyType_ED25519}}
+	if kit.Tier() == "thorough" {
+		scenSpecs = append(scenSpecs, c17HistSpecs[3], c17HistSpecs[6], c17HistSpecs[7], c17HistSpecs[10], c17HistSpecs[11], c17HistSpecs[14])
+	}
+	for si, spec := range scenSpecs {
+		for _, noCache := range []bool{false, true} {
+			for _, kind := range c17ScenarioKinds {
+				for k := 0; k < 40; k++ {
+					id := fmt.Sprintf("pscen:%d:%s:%v:%s:%d", shard, spec.name(), noCache, kind, k)
+					if !kit.WantCase(id) {
+						continue
+					}
+					rng := kit.NewRand(seed, 1767000+uint64(si)*100+uint64(k)+100000*uint64(shard))
+					if !c17RunScenario(ctx, r, rng, id, spec, noCache, kind, k) {
+						break
+					}
+				}
+				r.Count("scenario_requests_fully_enumerated", 1)
+			}
+		}
+	}
 	n := kit.N(240, 3000)
 	for i := 0; i < n; i++ {
 		id := fmt.Sprintf("hist:%d:%d", shard, i)
@@ -1276,7 +1389,7 @@ func TestVerif_C17_History(t *testing.T) {
 		if spec.isRSA() && i >= kit.N(4, 12)*len(c17HistSpecs) {
 			spec = c17HistSpecs[rng.Intn(len(c17HistSpecs)-1)]
 		}
-		c17RunHistory(ctx, r, rng, id, spec, i%2 == 1)
+		c17RunHistory(ctx, r, rng, id, spec, (i/len(c17HistSpecs))%2 == 1, i%3 != 0)
 	}
 	r.Require("hist_decrypt_ok_old_version", 300)
 	r.Require("hist_refused_below_min_dec", 100)
@@ -1290,13 +1403,173 @@ func TestVerif_C17_History(t *testing.T) {
 	r.Require("archive_has_version", 1000)
 	r.Require("restores", 20)
 	r.Require("invalid_setting_rejected", 20)
+	r.Require("fault_failed_request:rotate", 20)
+	r.Require("fault_failed_request:config", 20)
+	r.Require("fault_failed_request:trim", 5)
+	r.Require("fault_failed_request:restore", 10)
+	r.Require("fault_fired:rotate:put_policy", 5)
+	r.Require("fault_fired:rotate:put_archive", 5)
+	r.Require("fault_retried:rotate", 20)
+	r.Require("scenario_requests_fully_enumerated", 30)
 }
 
-func c17RunHistory(ctx context.Context, r *kit.Result, rng *kit.Rand, id string, spec c17Spec, noCache bool) {
-	k, err := c17NewRing(ctx, "h", spec, noCache)
+var c17ScenarioKinds = []string{"rotate", "raise-min-dec", "lower-min-dec", "trim", "restore", "backup"}
+
+type c17BackupP struct {
+	blob string
+	m    *c17Model
+}
+
+func (h *c17Hist) checkNow() {
+	if h.bad {
+		return
+	}
+	if err := h.k.with(false, func(p *Policy) error {
+		h.checkFields(p)
+		h.checkLedger(p)
+		return nil
+	}); err != nil {
+		h.violate("C17-policy-unloadable", fmt.Sprintf("policy can no longer be loaded: %v", err))
+	}
+	if !h.bad {
+		h.checkStorage()
+	}
+}
+
+// faulted runs one mutating operation with the k-th storage operation failing
+// once (k < 0: none). do must leave the model untouched when it returns an
+// error. After a failure caused by the fault the unchanged model is checked
+// against the policy (unless the state cannot be known: half-done restore)
+// and the caller retries.
+func (h *c17Hist) faulted(kind string, k int, unknownAfterFail bool, do func() error) (err error, fired bool) {
+	defer func() { h.onFaultFail, h.onFaultRetry = nil, nil }()
+	fs := h.k.fs
+	if fs == nil || k < 0 {
+		return do(), false
+	}
+	fs.arm(k)
+	err = do()
+	fired, what := fs.disarm()
+	if !fired {
+		return err, false
+	}
+	h.r.Count("fault_fired:"+kind+":"+what, 1)
+	if err == nil {
+		h.r.Count("fault_tolerated:"+kind, 1)
+		return nil, true
+	}
+	h.r.Count("fault_failed_request:"+kind, 1)
+	h.log("  storage fault on %s (op #%d) made the %s fail (%v); model unchanged; the caller retries", what, k, kind, err)
+	if h.onFaultFail != nil {
+		h.onFaultFail(what)
+	}
+	if !unknownAfterFail {
+		h.checkNow()
+	}
+	if h.onFaultRetry != nil {
+		h.onFaultRetry()
+	}
+	if h.bad {
+		return nil, true
+	}
+	fs.arm(-1)
+	err = do()
+	h.r.Count("fault_retried:"+kind, 1)
+	return err, true
+}
+
+func (h *c17Hist) pickFault() int {
+	if h.k.fs != nil && h.rng.Chance(2, 5) {
+		return h.rng.Intn(7)
+	}
+	return -1
+}
+
+func (h *c17Hist) doRotate() error {
+	return h.k.with(true, func(p *Policy) error {
+		if err := p.Rotate(h.k.ctx, h.k.st, crand.Reader); err != nil {
+			return err
+		}
+		m, err := c17Capture(p, p.LatestVersion)
+		if err != nil {
+			return err
+		}
+		h.m.Latest++
+		h.m.Keys[h.m.Latest] = m
+		h.r.Count("rotations", 1)
+		return nil
+	})
+}
+
+// setField applies one field change the way the transit handlers do: set,
+// Persist, roll the field back when Persist refuses.
+func (h *c17Hist) setField(which string, v int) error {
+	return h.k.with(true, func(p *Policy) error {
+		var f *int
+		switch which {
+		case "min_dec":
+			f = &p.MinDecryptionVersion
+		case "min_enc":
+			f = &p.MinEncryptionVersion
+		default:
+			f = &p.MinAvailableVersion
+		}
+		old := *f
+		*f = v
+		if err := p.Persist(h.k.ctx, h.k.st); err != nil {
+			*f = old
+			return err
+		}
+		switch which {
+		case "min_dec":
+			if v > h.m.MinDec {
+				h.r.Count("min_dec_raised", 1)
+			} else if v < h.m.MinDec {
+				h.r.Count("min_dec_lowered", 1)
+			}
+			h.m.MinDec = v
+		case "min_enc":
+			h.m.MinEnc = v
+		default:
+			if v > 1 && v > h.m.MinAvail {
+				h.r.Count("trims_effective", 1)
+			}
+			h.m.MinAvail = v
+		}
+		return nil
+	})
+}
+
+func (h *c17Hist) trimHooks(v int) {
+	h.onFaultFail = func(what string) { h.limbo, h.trimFault = v, what }
+	h.onFaultRetry = func() { h.limbo = 0 }
+}
+
+func (h *c17Hist) doBackup() error {
+	blob, err := h.k.lm.BackupPolicy(h.k.ctx, h.k.st, h.k.name)
+	if err != nil {
+		return err
+	}
+	h.backups = append(h.backups, c17BackupP{blob, h.m.clone()})
+	h.r.Count("backups", 1)
+	return nil
+}
+
+func (h *c17Hist) doRestore(b c17BackupP) error {
+	if err := h.k.lm.RestorePolicy(h.k.ctx, h.k.st, h.k.name, b.blob, true); err != nil {
+		return err
+	}
+	h.m = b.m.clone()
+	h.trimFault = ""
+	h.r.Count("restores", 1)
+	return nil
+}
+
+func c17NewHist(ctx context.Context, r *kit.Result, rng *kit.Rand, id string, spec c17Spec, noCache, faults bool) *c17Hist {
+	k, err := c17NewRingF(ctx, "h", spec, noCache, faults)
 	if err != nil {
 		r.Inconc("%s: cannot create key: %v", id, err)
-		return
+		return nil
 	}
 	h := &c17Hist{r: r, rng: rng, id: id, k: k, m: &c17Model{Latest: 1, MinDec: 1, Keys: map[int]*c17Material{}}, saw: map[string]bool{}}
 	if spec.Derived {
@@ -1308,14 +1581,130 @@ func c17RunHistory(ctx context.Context, r *kit.Result, rng *kit.Rand, id string,
 		return err
 	}); err != nil {
 		r.Inconc("%s: %v", id, err)
+		return nil
+	}
+	h.log("create %s nocache=%v faults=%v", spec.name(), noCache, faults)
+	return h
+}
+
+// c17RunScenario: a fixed history in which storage operation #k of one
+// maintenance operation fails once; false when there is no k-th operation.
+func c17RunScenario(ctx context.Context, r *kit.Result, rng *kit.Rand, id string, spec c17Spec, noCache bool, kind string, k int) bool {
+	h := c17NewHist(ctx, r, rng, id, spec, noCache, true)
+	if h == nil {
+		return false
+	}
+	r.Eval(1)
+	r.Nontrivial(id)
+	h.forceLatest = true
+	step := 0
+	produce := func() {
+		step++
+		if h.bad {
+			return
+		}
+		_ = h.k.with(false, func(p *Policy) error {
+			if spec.Type.EncryptionSupported() {
+				h.opEncrypt(p, step)
+			}
+			if spec.Type.SigningSupported() && !h.bad {
+				h.opSign(p, step)
+			}
+			return nil
+		})
+		h.checkNow()
+	}
+	plain := func(what string, f func() error) {
+		if h.bad {
+			return
+		}
+		err := f()
+		h.log("%s err=%v", what, err)
+		if err != nil {
+			h.violate("C17-config-refused", fmt.Sprintf("%s failed without any fault: %v", what, err))
+		}
+		h.checkNow()
+	}
+	fired := false
+	target := func(kindName, what string, unknown bool, f func() error) {
+		if h.bad {
+			return
+		}
+		var err error
+		err, fired = h.faulted(kindName, k, unknown, f)
+		h.log("%s (fault at op #%d fired=%v) err=%v", what, k, fired, err)
+		if err != nil && !h.bad {
+			h.violate("C17-config-refused", fmt.Sprintf("%s still fails when retried without a fault: %v", what, err))
+		}
+		h.checkNow()
+	}
+	produce()
+	plain("rotate", h.doRotate)
+	produce()
+	plain("backup", h.doBackup)
+	switch kind {
+	case "rotate":
+		target("rotate", "rotate", false, h.doRotate)
+	case "raise-min-dec":
+		plain("rotate", h.doRotate)
+		produce()
+		target("config", "min_decryption_version=3", false, func() error { return h.setField("min_dec", 3) })
+	case "lower-min-dec":
+		plain("rotate", h.doRotate)
+		produce()
+		plain("min_decryption_version=3", func() error { return h.setField("min_dec", 3) })
+		target("config", "min_decryption_version=1", false, func() error { return h.setField("min_dec", 1) })
+	case "trim":
+		plain("rotate", h.doRotate)
+		produce()
+		plain("min_encryption_version=3", func() error { return h.setField("min_enc", 3) })
+		plain("min_decryption_version=2", func() error { return h.setField("min_dec", 2) })
+		h.trimHooks(2)
+		target("trim", "min_available_version=2", false, func() error { return h.setField("min_avail", 2) })
+	case "restore":
+		plain("rotate", h.doRotate)
+		produce()
+		if len(h.backups) > 0 {
+			b := h.backups[0]
+			target("restore", "restore first backup", true, func() error { return h.doRestore(b) })
+		}
+	case "backup":
+		plain("rotate", h.doRotate)
+		target("backup", "backup", false, h.doBackup)
+	}
+	produce()
+	plain("rotate", h.doRotate)
+	produce()
+	plain("rotate", h.doRotate)
+	produce()
+	lo := h.m.MinAvail
+	if lo < 1 {
+		lo = 1
+	}
+	plain("min_encryption_version=latest", func() error { return h.setField("min_enc", h.m.Latest) })
+	plain("min_decryption_version=latest", func() error { return h.setField("min_dec", h.m.Latest) })
+	produce()
+	plain("min_decryption_version=lowest", func() error { return h.setField("min_dec", lo) })
+	produce()
+	if len(h.backups) > 0 {
+		b := h.backups[len(h.backups)-1]
+		plain("restore last backup", func() error { return h.doRestore(b) })
+		plain("rotate", h.doRotate)
+		produce()
+	}
+	r.Count("scenarios", 1)
+	if fired {
+		r.Count("scenarios_with_fault", 1)
+	}
+	return fired
+}
+
+func c17RunHistory(ctx context.Context, r *kit.Result, rng *kit.Rand, id string, spec c17Spec, noCache, faults bool) {
+	h := c17NewHist(ctx, r, rng, id, spec, noCache, faults)
+	if h == nil {
 		return
 	}
-	h.log("create %s nocache=%v", spec.name(), noCache)
-	type backup struct {
-		blob string
-		m    *c17Model
-	}
-	var backups []backup
+	k := h.k
 	signing := spec.Type.SigningSupported()
 	encrypting := spec.Type.EncryptionSupported()
 	nops := 30
@@ -1323,28 +1712,14 @@ func c17RunHistory(ctx context.Context, r *kit.Result, rng *kit.Rand, id string,
 	r.Eval(1)
 	for step := 1; step <= nops && !h.bad; step++ {
 		op := rng.Intn(100)
-		// persist applies field changes the way the transit handlers do and
-		// rolls the fields back when Persist refuses.
 		switch {
 		case op < 16: // rotate
 			sig.WriteString("R")
-			err := k.with(true, func(p *Policy) error {
-				if err := p.Rotate(ctx, k.st, crand.Reader); err != nil {
-					return err
-				}
-				m, err := c17Capture(p, p.LatestVersion)
-				if err != nil {
-					return err
-				}
-				h.m.Latest++
-				h.m.Keys[h.m.Latest] = m
-				return nil
-			})
+			err, _ := h.faulted("rotate", h.pickFault(), false, h.doRotate)
 			h.log("rotate -> latest %d err=%v", h.m.Latest, err)
-			if err != nil {
+			if err != nil && !h.bad {
 				h.violate("C17-rotate-failed", fmt.Sprintf("rotate failed: %v", err))
 			}
-			r.Count("rotations", 1)
 		case op < 28: // min_decryption_version (legal values)
 			hi := h.m.Latest
 			if h.m.MinEnc > 0 && h.m.MinEnc < hi {
@@ -1356,25 +1731,10 @@ func c17RunHistory(ctx context.Context, r *kit.Result, rng *kit.Rand, id string,
 			}
 			d := lo + rng.Intn(hi-lo+1)
 			sig.WriteString(fmt.Sprintf("D%d", d))
-			err := k.with(true, func(p *Policy) error {
-				old := p.MinDecryptionVersion
-				p.MinDecryptionVersion = d
-				if err := p.Persist(ctx, k.st); err != nil {
-					p.MinDecryptionVersion = old
-					return err
-				}
-				return nil
-			})
+			err, _ := h.faulted("config", h.pickFault(), false, func() error { return h.setField("min_dec", d) })
 			h.log("min_decryption_version=%d err=%v", d, err)
-			if err != nil {
+			if err != nil && !h.bad {
 				h.violate("C17-config-refused", fmt.Sprintf("legal min_decryption_version %d refused: %v", d, err))
-			} else {
-				if d > h.m.MinDec {
-					r.Count("min_dec_raised", 1)
-				} else if d < h.m.MinDec {
-					r.Count("min_dec_lowered", 1)
-				}
-				h.m.MinDec = d
 			}
 		case op < 38: // min_encryption_version (legal values)
 			e := h.m.MinDec + rng.Intn(h.m.Latest-h.m.MinDec+1)
@@ -1382,20 +1742,10 @@ func c17RunHistory(ctx context.Context, r *kit.Result, rng *kit.Rand, id string,
 				e = 0
 			}
 			sig.WriteString(fmt.Sprintf("E%d", e))
-			err := k.with(true, func(p *Policy) error {
-				old := p.MinEncryptionVersion
-				p.MinEncryptionVersion = e
-				if err := p.Persist(ctx, k.st); err != nil {
-					p.MinEncryptionVersion = old
-					return err
-				}
-				return nil
-			})
+			err, _ := h.faulted("config", h.pickFault(), false, func() error { return h.setField("min_enc", e) })
 			h.log("min_encryption_version=%d err=%v", e, err)
-			if err != nil {
+			if err != nil && !h.bad {
 				h.violate("C17-config-refused", fmt.Sprintf("legal min_encryption_version %d refused: %v", e, err))
-			} else {
-				h.m.MinEnc = e
 			}
 		case op < 47: // trim
 			if h.m.MinEnc == 0 {
@@ -1417,23 +1767,11 @@ func c17RunHistory(ctx context.Context, r *kit.Result, rng *kit.Rand, id string,
 				m = hi
 			}
 			sig.WriteString(fmt.Sprintf("T%d", m))
-			err := k.with(true, func(p *Policy) error {
-				old := p.MinAvailableVersion
-				p.MinAvailableVersion = m
-				if err := p.Persist(ctx, k.st); err != nil {
-					p.MinAvailableVersion = old
-					return err
-				}
-				return nil
-			})
+			h.trimHooks(m)
+			err, _ := h.faulted("trim", h.pickFault(), false, func() error { return h.setField("min_avail", m) })
 			h.log("trim min_available_version=%d err=%v", m, err)
-			if err != nil {
+			if err != nil && !h.bad {
 				h.violate("C17-config-refused", fmt.Sprintf("legal min_available_version %d refused: %v", m, err))
-			} else {
-				if m > 1 && m > h.m.MinAvail {
-					r.Count("trims_effective", 1)
-				}
-				h.m.MinAvail = m
 			}
 		case op < 52: // settings Persist must reject; nothing may change
 			sig.WriteString("X")
@@ -1464,56 +1802,41 @@ func c17RunHistory(ctx context.Context, r *kit.Result, rng *kit.Rand, id string,
 			}
 		case op < 58: // backup
 			sig.WriteString("B")
-			blob, err := k.lm.BackupPolicy(ctx, k.st, k.name)
+			err, _ := h.faulted("backup", h.pickFault(), false, h.doBackup)
 			h.log("backup err=%v", err)
-			if err != nil {
+			if err != nil && !h.bad {
 				h.violate("C17-backup-failed", fmt.Sprintf("backup of an exportable key failed: %v", err))
-			} else {
-				backups = append(backups, backup{blob, h.m.clone()})
-				r.Count("backups", 1)
 			}
 		case op < 64: // restore (forced) of any earlier backup
-			if len(backups) == 0 {
+			if len(h.backups) == 0 {
 				continue
 			}
-			b := backups[rng.Intn(len(backups))]
+			b := h.backups[rng.Intn(len(h.backups))]
 			sig.WriteString("S")
-			err := k.lm.RestorePolicy(ctx, k.st, k.name, b.blob, true)
+			err, _ := h.faulted("restore", h.pickFault(), true, func() error { return h.doRestore(b) })
 			h.log("restore backup(latest=%d min_dec=%d min_avail=%d) err=%v", b.m.Latest, b.m.MinDec, b.m.MinAvail, err)
-			if err != nil {
+			if err != nil && !h.bad {
 				h.violate("C17-restore-failed", fmt.Sprintf("forced restore failed: %v", err))
-			} else {
-				h.m = b.m.clone()
-				r.Count("restores", 1)
 			}
 		case op < 69: // restart
 			sig.WriteString("L")
 			k.reload()
 			h.log("reload (drop cached policy objects)")
 			r.Count("reloads", 1)
-		case encrypting && (!signing || op < 86):
+		case encrypting && (!signing || op < 88):
 			sig.WriteString("e")
 			_ = k.with(false, func(p *Policy) error { h.opEncrypt(p, step); return nil })
 		default:
 			sig.WriteString("s")
 			_ = k.with(false, func(p *Policy) error { h.opSign(p, step); return nil })
 		}
-		if h.bad {
-			break
-		}
-		if err := k.with(false, func(p *Policy) error {
-			h.checkFields(p)
-			h.checkLedger(p)
-			return nil
-		}); err != nil {
-			h.violate("C17-policy-unloadable", fmt.Sprintf("policy can no longer be loaded: %v", err))
-		}
-		if !h.bad {
-			h.checkStorage()
-		}
+		h.checkNow()
 	}
-	r.Nontrivial(spec.name() + sig.String())
+	r.Nontrivial(spec.name() + fmt.Sprint(noCache, faults) + sig.String())
 	r.Count("histories", 1)
+	if faults {
+		r.Count("histories_with_fault_storage", 1)
+	}
 	if id[len(id)-2:] == ":0" {
 		st := h.steps
 		if len(st) > 12 {
